@@ -18,10 +18,10 @@ OWN_CLS = {"P11_class", "P11_uline"}
 PLAN = {
     "quick": {
         # (name, model kwargs, print 1 history in N)
-        "svc_models": [("q1", dict(names="Names2", words="Words5", max_rl=1, pre=True, keep_old=False), 8)],
+        "svc_models": [("q1", dict(names="Names2", words="Words5", max_rl=1, pre=True, keep_old=False), 2)],
         "svc_workers": 10,
         "cls_models": [("MCReloadClass_q.cfg", 1)],
-        "cls_chains": 120, "cls_random": 1, "cls_parts": 4,
+        "cls_chains": 480, "cls_random": 1, "cls_parts": 6,
         "nproc": 12,
     },
     "thorough": {
